@@ -15,7 +15,9 @@ INTERVAL = [K + "__or.<locals>.reduce_ranges", K + "__or.<locals>.reduce_chars",
 # G9b: the operator methods relative to the assumed core operations: which operands reach __or / __sub, in which order, after
 # the documented conversion of single characters / tokens to AnyFrom(c); the documented exception otherwise; ~ flips the flag
 # and re-brackets the verbose text
-OPERATORS = [K + m for m in ("__or__", "__ror__", "__sub__", "__rsub__", "__invert__")] + ["pregex.core.classes.Any.__invert__"]
+OPERATORS = [K + m for m in ("__or__", "__ror__", "__sub__", "__rsub__", "__invert__")] + \
+    ["pregex.core.classes." + m for m in ("Any.__invert__", "AnyWordChar.__invert__", "AnyButWordChar.__invert__",
+                                          "AnyWordChar.__init__", "AnyButWordChar.__init__")]
 # G8b: the core operations themselves, over abstract item sets: the listed set of the result is the union / difference of the
 # operands' listed sets, EmptyClassException iff nothing is left, the type-mix and global-word exceptions iff documented -
 # relative to the assumed contracts of the text layer (__extract_classes, __modify_classes, __process via __Class.__init__)
